@@ -190,6 +190,16 @@ def sat_src(design, impl_design, seqs_text, strands_text):
             problems.append("sequence %s = %s is not the concatenation of its domains (%s)" % (real, S.get(real), want))
     T = d["strand"]
     strand_val = {}
+    # every position that lies on a strand (whether or not the strand is in a structure) is in the designer's arrays and is assigned:
+    # its finished letter is a base, not a left-over template code
+    undesigned = []
+    for name, dummy, nucs in design["strands"]:
+        for x in nucs:
+            v, _ = parse_nuc(x)
+            if v in val and val[v] not in "ACGT":
+                undesigned.append("%s (strand %s)" % ("%s:%d" % v, name))
+    if undesigned:
+        problems.append("position %s lies on a strand but its finished letter is not a base (the assignment was not carried through)" % undesigned[0])
     for name, dummy, nucs in design["strands"]:
         want = ev(nucs)
         strand_val[name] = want
